@@ -254,7 +254,7 @@ def stepCall (w : World) (k : Nat) : Option World :=
         else some ((setDeadlineL w f false).setCall k { c with pc := .teardown, ret := some .errDeadline })
     | .inAccept =>
       match c.l with
-      | none => some (w.setCall k { c with pc := .returned, ret := some .panicNil })
+      | none => some (w.setCall k { c with pc := .teardown, ret := some .panicNil })   -- nil-pointer panic: the deferred functions still run
       | some l =>
         if isOpen w l then
           match firstIdx (waitsOn l) w.conns with
